@@ -313,6 +313,14 @@ func (env *CEnv) sel(n *Node) cval {
 	cur := base.V
 	curT := base.T
 	st := env.scratchState()
+	if !env.forceFinal && len(st.Overlay) > 0 {
+		// fields of parameters denote their values at entry; final(x.f) reads
+		// the value after the function's own writes
+		entry := st.Clone()
+		entry.Overlay = map[string]Value{}
+		entry.Trace = st.Trace
+		st = entry
+	}
 	for _, ix := range index {
 		// deref pointers
 		var pointee types.Type
@@ -602,12 +610,21 @@ func (env *CEnv) call(n *Node) cval {
 		r := env.eval(n.Kids[0])
 		ctx := env.ex.reqCtx(env.scratchState(), r.V)
 		return cval{V: env.ex.ctxLookup(env.scratchState(), ctx, strings.TrimPrefix(name, "ctx"))}
-	case "contains":
-		return cval{V: Builtin("str.contains", SBool, env.term(n.Kids[0]), env.term(n.Kids[1]))}
-	case "prefixof":
-		return cval{V: Builtin("str.prefixof", SBool, env.term(n.Kids[0]), env.term(n.Kids[1]))}
-	case "suffixof":
-		return cval{V: Builtin("str.suffixof", SBool, env.term(n.Kids[0]), env.term(n.Kids[1]))}
+	case "contains", "prefixof", "suffixof":
+		a, b := env.term(n.Kids[0]), env.term(n.Kids[1])
+		if x, ok := a.StrVal(); ok {
+			if y, ok := b.StrVal(); ok {
+				switch name {
+				case "contains":
+					return cval{V: BoolLit(strings.Contains(x, y))}
+				case "prefixof":
+					return cval{V: BoolLit(strings.HasPrefix(y, x))}
+				case "suffixof":
+					return cval{V: BoolLit(strings.HasSuffix(y, x))}
+				}
+			}
+		}
+		return cval{V: Builtin("str."+name, SBool, a, b)}
 	case "substr":
 		return cval{V: StrSub(env.term(n.Kids[0]), env.term(n.Kids[1]), env.term(n.Kids[2]))}
 	case "indexof":
@@ -712,6 +729,10 @@ func (env *CEnv) call(n *Node) cval {
 			return cval{V: has}
 		}
 		return cval{V: val}
+	case "list_at":
+		// list_at(ptr, "field"): the value of a field of the ClientStateResponseWriter behind ptr
+		b := env.term(n.Kids[0])
+		return cval{V: App("f!authboss.ClientStateResponseWriter."+n.Kids[1].S, SInt, b)}
 	case "implements":
 		// implements(x, "pkg.Iface"): the dynamic-type predicate the executor uses for x.(pkg.Iface)
 		x := env.term(n.Kids[0])
